@@ -1,9 +1,20 @@
 ENGINES = [
-    {"name": "rapidcheck", "path": "/usr/include/rapidcheck.h", "serves_properties": ["C19"], "kind_free_text": "property-based testing library (generators + shrinking), configured only through RC_PARAMS"},
+    {"name": "rapidcheck", "path": "/usr/include/rapidcheck.h", "serves_properties": ["C02", "C03", "C04", "C18", "C19"], "kind_free_text": "property-based testing library (generators + shrinking), configured only through RC_PARAMS"},
+    {"name": "libFuzzer", "path": "clang -fsanitize=fuzzer", "serves_properties": ["C02", "C03", "C04", "C18"], "kind_free_text": "coverage-guided fuzzing; the semantic oracle runs inside the target (harness/wire_fuzz.cpp), structure-aware decoding of the input bytes"},
+    {"name": "refdns", "path": "harness/refdns.hpp", "serves_properties": ["C02", "C03", "C04", "C18"], "kind_free_text": "independent RFC 1035/2782/3403/6891/6698/7553/8659/9460 codec used as differential oracle and re-parser"},
 ]
 NOTES = "All checks are generated-input search against explicit oracles (property-based testing / fuzzing). Driver: ./check <ID> --tier quick|thorough [--replay F]; see DESIGN.md."
 NOT_YET = {}
+WIRE_NOTE = "Trusted: refdns (written from the RFCs, shares nothing with c-ares; its documented-subset rules are in DESIGN.md section 4), rapidcheck, libFuzzer, clang ASan/UBSan, the allocation ledger. Explores generated and mutated messages up to 64 KiB; absence of violations is not proved."
 CHECKS = {
+    "C02": dict(engine="rapidcheck+libFuzzer", technique="structure-aware fuzzing + property-based generation: generated/mutated/raw messages through every decoding entry point under ASan+UBSan, per-case allocation ledger, CPU watchdog, result/no-result and backward-pointer invariants",
+        text="Exploration: ~190k (quick) to millions (thorough) of inputs per run through ares_dns_parse (all flag sets), the 12 legacy reply parsers, ares_expand_name/string, then getters/write/duplicate; memory errors, UB, leaks, non-termination and result/no-result mismatches are all visible per case.", note=WIRE_NOTE),
+    "C03": dict(engine="rapidcheck+libFuzzer", technique="round-trip property testing: records from public setters and from the parser -> write -> parse (c-ares and refdns) -> field-by-field dump equality -> byte-identical rewrite; TCP frames at generated buffer offsets; legacy query builders decoded by refdns",
+        text="Exploration of the write/parse identity over generated records of every RR type up to and past 64 KiB, frames placed after generated prefixes, and legacy builder arguments; a failing write is a pass (the statement is conditional).", note=WIRE_NOTE),
+    "C04": dict(engine="rapidcheck+libFuzzer", technique="differential testing against an independent RFC reference decoder in both directions, plus presentation-format escape round trips",
+        text="Exploration: every accepted message's getter dump must equal the reference extraction; every message the reference finds well-formed in the documented subset must be accepted; accepted-but-unextractable is a violation.", note=WIRE_NOTE),
+    "C18": dict(engine="rapidcheck+libFuzzer", technique="differential testing of each legacy ares_parse_*_reply function against the record API on the same generated/mutated bytes, capacities 0..7 with canaries",
+        text="Exploration: status agreement (malformed iff ares_dns_parse rejects), list equality in answer order field by field, addrttl min(record, CNAME) TTL rule, capacity and canary checks, ledger for complete release. One known finding (SOA no-data status) is excluded by construction and replayed on every run.", note=WIRE_NOTE),
     "C19": dict(
         engine="rapidcheck",
         technique="model-based property testing: rapidcheck-generated operation programs per container compared step by step with std:: reference models (+ exact per-case allocation ledger, ASan/UBSan)",
